@@ -11,8 +11,10 @@
 use crate::common::*;
 use discv5::enr::{CombinedKey, NodeId};
 use discv5::verif::filter::{
-    permit_ban_reset, permit_ban_snapshot, FilterConfig, FilterFacade, LimiterFacade, PermitBanList, RateLimiterBuilder, Verdict,
+    permit_ban_reset, permit_ban_snapshot, DatagramKind, Fate, FilterConfig, FilterFacade, LimiterFacade, PermitBanList, RateLimiterBuilder,
+    RecvFacade, Verdict,
 };
+use discv5::verif::handler::VirtualHandler;
 use discv5::{ConfigBuilder, Discv5, Enr, ListenConfig, NodeAddress};
 use std::collections::{BTreeMap, BTreeSet};
 use std::net::{IpAddr, Ipv4Addr, SocketAddr};
@@ -325,7 +327,12 @@ impl Regime {
 pub enum FEv {
     Initial(u8),
     Final(u8, u8),
+    /// one datagram through RecvHandler::handle_inbound: exempt source?, ip, 0 = garbage /
+    /// 255 = WHOAREYOU / n = message from node n
+    Inbound(bool, u8, u8),
     Prune,
+    /// the handler's unban_nodes_check (runs when a handler starts)
+    UnbanCheck,
     PermitIp(u8, bool),
     PermitNode(u8, bool),
     BanIp(u8, bool, Option<u64>),
@@ -352,7 +359,7 @@ fn gen_regime(rng: &mut Rng, big: bool) -> Regime {
     }
 }
 
-fn gen_fil(rng: &mut Rng, thorough: bool) -> FilCase {
+fn gen_fil(rng: &mut Rng, thorough: bool, inb: bool) -> FilCase {
     let enabled = !rng.chance(1, 8);
     let rate = if rng.chance(1, 10) {
         None
@@ -375,14 +382,26 @@ fn gen_fil(rng: &mut Rng, thorough: bool) -> FilCase {
     for _ in 0..nev {
         let ip = *rng.pick(&[1u8, 1, 1, 2, 2, 3, 4]);
         let node = *rng.pick(&[1u8, 1, 2, 2, 3, 4, 5, 6]);
-        let ev = match rng.weighted(&[34, 34, 5, 5, 5, 6, 6]) {
+        let short = |rng: &mut Rng| -> Option<u64> {
+            // 0.5 ms bans are over at the next event (2 ms later); the others never end within a case
+            match rng.weighted(&[3, 2, 2]) {
+                0 => Some(HOUR),
+                1 => None,
+                _ => Some(500_000),
+            }
+        };
+        let ev = match rng.weighted(&[34, 34, 5, 5, 5, 6, 6, 3]) {
+            0 if inb => FEv::Inbound(rng.chance(1, 8), ip, *rng.pick(&[0u8, 255, node, node, node, node])),
+            1 if inb => FEv::Inbound(rng.chance(1, 8), ip, node),
+            2 if inb => FEv::Inbound(false, ip, 255),
             0 => FEv::Initial(ip),
             1 => FEv::Final(ip, node),
             2 => FEv::Prune,
+            7 => FEv::UnbanCheck,
             3 => FEv::PermitIp(ip, rng.chance(2, 3)),
             4 => FEv::PermitNode(node, rng.chance(2, 3)),
-            5 => FEv::BanIp(ip, rng.chance(2, 3), if rng.chance(2, 3) { Some(HOUR) } else { None }),
-            _ => FEv::BanNode(node, rng.chance(2, 3), if rng.chance(2, 3) { Some(HOUR) } else { None }),
+            5 => FEv::BanIp(ip, rng.chance(2, 3), short(rng)),
+            _ => FEv::BanNode(node, rng.chance(2, 3), short(rng)),
         };
         events.push(ev);
     }
@@ -417,7 +436,18 @@ fn coq_fev(e: &FEv) -> String {
     match e {
         FEv::Initial(ip) => format!("FInitial {}", ip_num(&ip_of(*ip))),
         FEv::Final(ip, n) => format!("FFinal {} {}", ip_num(&ip_of(*ip)), node_num(&node_of(*n))),
+        FEv::Inbound(ex, ip, k) => format!(
+            "FInbound {} {} {}",
+            coq_bool(*ex),
+            ip_num(&ip_of(*ip)),
+            match k {
+                0 => "None".to_string(),
+                255 => "(Some None)".to_string(),
+                n => format!("(Some (Some {}))", node_num(&node_of(*n))),
+            }
+        ),
         FEv::Prune => "FPruneLimiter".into(),
+        FEv::UnbanCheck => "FUnbanCheck".into(),
         FEv::PermitIp(ip, add) => format!("FPermitIp {} {}", ip_num(&ip_of(*ip)), coq_bool(*add)),
         FEv::PermitNode(n, add) => format!("FPermitNode {} {}", node_num(&node_of(*n)), coq_bool(*add)),
         FEv::BanIp(ip, add, d) => format!("FBanIp {} {} {}", ip_num(&ip_of(*ip)), coq_bool(*add), coq_on(*d)),
@@ -540,7 +570,7 @@ impl Quota {
     }
 }
 
-fn run_fil(id: u64, g: &FilCase, api: &Discv5) -> CaseResult {
+fn run_fil(id: u64, g: &FilCase, api: &Discv5, inb: bool, rt: &tokio::runtime::Runtime) -> CaseResult {
     let mut hist = Hist::default();
     let mut failures: Vec<(String, String, usize)> = vec![];
     let mut seen = BTreeSet::new();
@@ -553,11 +583,15 @@ fn run_fil(id: u64, g: &FilCase, api: &Discv5) -> CaseResult {
     let base = Instant::now();
     let ns = |t: Instant| t.duration_since(base).as_nanos() as u64;
     let rate = g.rate.as_ref().map(build_rate);
-    let mut f = FilterFacade::new(
-        FilterConfig { enabled: g.enabled, rate_limiter: rate, max_nodes_per_ip: g.max_nodes_per_ip, max_bans_per_ip: g.max_bans_per_ip },
-        g.ban_ns.map(Duration::from_nanos),
-    );
-    let init = f.dump().init_time.map(ns);
+    let init = rate.as_ref().map(|r| ns(r.verif_init_time()));
+    let config = FilterConfig { enabled: g.enabled, rate_limiter: rate, max_nodes_per_ip: g.max_nodes_per_ip, max_bans_per_ip: g.max_bans_per_ip };
+    let local_id = node_of(200);
+    // the filter alone, or the filter inside the receive path (RecvHandler::handle_inbound)
+    let (mut f, mut recv): (Option<FilterFacade>, Option<RecvFacade>) = if inb {
+        (None, Some(rt.block_on(RecvFacade::new(config, g.ban_ns.map(Duration::from_nanos), local_id)).expect("recv handler")))
+    } else {
+        (Some(FilterFacade::new(config, g.ban_ns.map(Duration::from_nanos))), None)
+    };
     hist.add(if g.enabled { "filter:enabled" } else { "filter:disabled" });
     match &g.rate {
         None => hist.add("rate_limiter:none"),
@@ -589,10 +623,53 @@ fn run_fil(id: u64, g: &FilCase, api: &Discv5) -> CaseResult {
         let lo_i = Instant::now();
         let mut out = Enc::new();
         let r = catch(std::panic::AssertUnwindSafe(|| match ev {
-            FEv::Initial(ip) => Some(f.initial_pass(&SocketAddr::new(ip_of(*ip), 9000))),
-            FEv::Final(ip, n) => Some(f.final_pass(&NodeAddress { socket_addr: SocketAddr::new(ip_of(*ip), 9000), node_id: node_of(*n) })),
+            FEv::Initial(ip) => Some(f.as_mut().unwrap().initial_pass(&SocketAddr::new(ip_of(*ip), 9000)) as u64),
+            FEv::Final(ip, n) => {
+                Some(f.as_mut().unwrap().final_pass(&NodeAddress { socket_addr: SocketAddr::new(ip_of(*ip), 9000), node_id: node_of(*n) }) as u64)
+            }
+            FEv::Inbound(ex, ip, k) => {
+                let src = SocketAddr::new(ip_of(*ip), 9000);
+                let rf = recv.as_mut().unwrap();
+                if *ex {
+                    rf.expected_responses.write().insert(src, 1);
+                }
+                let kind = match k {
+                    0 => DatagramKind::Garbage,
+                    255 => DatagramKind::WhoAreYou,
+                    n => DatagramKind::Message(node_of(*n)),
+                };
+                let fate = rt.block_on(rf.inbound(src, kind));
+                if *ex {
+                    rf.expected_responses.write().remove(&src);
+                }
+                Some(match fate {
+                    Fate::Dropped => 0,
+                    Fate::Unrecognized => 1,
+                    Fate::Delivered => 3,
+                })
+            }
             FEv::Prune => {
-                f.prune_limiter();
+                f.as_mut().unwrap().prune_limiter();
+                None
+            }
+            FEv::UnbanCheck => {
+                // a starting handler runs unban_nodes_check at once (first tick of its interval)
+                rt.block_on(async {
+                    let key = CombinedKey::generate_secp256k1();
+                    let enr = Enr::builder().ip4(Ipv4Addr::new(127, 0, 0, 1)).udp4(9009).build(&key).unwrap();
+                    let config = ConfigBuilder::new(ListenConfig::default()).build();
+                    let mut vh = VirtualHandler::spawn(
+                        std::sync::Arc::new(parking_lot::RwLock::new(enr)),
+                        std::sync::Arc::new(parking_lot::RwLock::new(key)),
+                        config,
+                        vec![SocketAddr::new(IpAddr::V4(Ipv4Addr::new(127, 0, 0, 1)), 9009)],
+                    )
+                    .await
+                    .expect("virtual handler");
+                    tokio::time::sleep(Duration::from_millis(3)).await;
+                    vh.shutdown();
+                    tokio::task::yield_now().await;
+                });
                 None
             }
             FEv::PermitIp(ip, add) => {
@@ -639,15 +716,22 @@ fn run_fil(id: u64, g: &FilCase, api: &Discv5) -> CaseResult {
         let after = permit_ban_snapshot();
         let (lo, hi) = (ns(lo_i), ns(hi_i));
         if let Some(d) = decision {
-            out.b(d);
+            out.n(d);
         }
         enc_pbl(&mut out, &after);
-        enc_filter(&mut out, &f);
+        if let Some(f) = f.as_ref() {
+            enc_filter(&mut out, f);
+        }
         steps.push(format!("({}, {}, {}, {})", coq_fev(ev), lo, hi, out.coq()));
         hist.add(match ev {
             FEv::Initial(_) => "op:initial_pass",
             FEv::Final(..) => "op:final_pass",
             FEv::Prune => "op:prune_limiter",
+            FEv::Inbound(true, ..) => "op:handle_inbound (exempt source)",
+            FEv::Inbound(false, _, 0) => "op:handle_inbound (undecodable)",
+            FEv::Inbound(false, _, 255) => "op:handle_inbound (WHOAREYOU)",
+            FEv::Inbound(false, ..) => "op:handle_inbound (message)",
+            FEv::UnbanCheck => "op:unban_nodes_check",
             FEv::PermitIp(..) | FEv::PermitNode(..) => "op:permit/unpermit",
             FEv::BanIp(..) | FEv::BanNode(..) => "op:ban/unban",
         });
@@ -664,7 +748,7 @@ fn run_fil(id: u64, g: &FilCase, api: &Discv5) -> CaseResult {
         match ev {
             FEv::Initial(ipi) => {
                 let ip = ip_of(*ipi);
-                let d = decision.unwrap();
+                let d = decision.unwrap() != 0;
                 if before.permit_ips.contains(&ip) {
                     saw_permit = true;
                     hist.add("initial_pass:permit-listed");
@@ -718,7 +802,7 @@ fn run_fil(id: u64, g: &FilCase, api: &Discv5) -> CaseResult {
             FEv::Final(ipi, ni) => {
                 let ip = ip_of(*ipi);
                 let node = node_of(*ni);
-                let d = decision.unwrap();
+                let d = decision.unwrap() != 0;
                 if before.permit_nodes.contains(&node) {
                     saw_permit = true;
                     hist.add("final_pass:permit-listed");
@@ -768,6 +852,79 @@ fn run_fil(id: u64, g: &FilCase, api: &Discv5) -> CaseResult {
                 saw_pass |= d;
                 h = (h ^ (4 + d as u64)).wrapping_mul(1099511628211);
             }
+            FEv::Inbound(ex, ipi, k) => {
+                let ip = ip_of(*ipi);
+                let fate = decision.unwrap();
+                let dropped = fate == 0;
+                let node = if *k != 0 && *k != 255 { Some(node_of(*k)) } else { None };
+                if *ex {
+                    saw_permit = true;
+                    hist.add("inbound:exempt");
+                    if dropped {
+                        fail(&mut failures, "solicited datagram was dropped by the filter", format!("{:?}", ev), i);
+                    }
+                    if after.ban_ips.len() != before.ban_ips.len() || after.ban_nodes.len() != before.ban_nodes.len() {
+                        fail(&mut failures, "solicited datagram changed the ban lists", format!("{:?}", ev), i);
+                    }
+                } else if !before.permit_ips.contains(&ip) && before.ban_ips.contains_key(&ip) {
+                    saw_ban_drop = true;
+                    hist.add("inbound:banned IP");
+                    if !dropped {
+                        fail(&mut failures, "datagram from a banned IP was let through", format!("{:?}", ev), i);
+                    }
+                } else if let Some(n) = node {
+                    if !before.permit_nodes.contains(&n) && before.ban_nodes.contains_key(&n) && !dropped {
+                        fail(&mut failures, "datagram from a banned node id was let through", format!("{:?}", ev), i);
+                    }
+                    if before.permit_ips.contains(&ip) && before.permit_nodes.contains(&n) {
+                        saw_permit = true;
+                        hist.add("inbound:permit-listed IP and node");
+                        if dropped {
+                            fail(&mut failures, "datagram from a permit-listed IP and node id was dropped", format!("{:?}", ev), i);
+                        }
+                    }
+                } else if before.permit_ips.contains(&ip) {
+                    saw_permit = true;
+                    if dropped {
+                        fail(&mut failures, "datagram from a permit-listed IP was dropped at the IP stage", format!("{:?}", ev), i);
+                    }
+                }
+                if dropped {
+                    saw_limit_drop = true;
+                } else {
+                    saw_pass = true;
+                }
+                hist.add(match fate {
+                    0 => "inbound:dropped",
+                    1 => "inbound:unrecognized frame",
+                    _ => "inbound:delivered",
+                });
+                h = (h ^ (8 + fate)).wrapping_mul(1099511628211);
+            }
+            FEv::UnbanCheck => {
+                // a ban must not be lifted before its expiry (and permanent bans never)
+                for (ip, t) in &before.ban_ips {
+                    let keep = match t {
+                        None => true,
+                        Some(t) => ns(*t) > hi,
+                    };
+                    if keep && !after.ban_ips.contains_key(ip) {
+                        fail(&mut failures, "ban was lifted before its expiry", format!("ip {:?} until {:?}, check not after {}", ip, t.map(ns), hi), i);
+                    }
+                }
+                for (n, t) in &before.ban_nodes {
+                    let keep = match t {
+                        None => true,
+                        Some(t) => ns(*t) > hi,
+                    };
+                    if keep && !after.ban_nodes.contains_key(n) {
+                        fail(&mut failures, "ban was lifted before its expiry", format!("node {} until {:?}", node_num(n), t.map(ns)), i);
+                    }
+                }
+                let lifted = before.ban_ips.len() + before.ban_nodes.len() - after.ban_ips.len() - after.ban_nodes.len();
+                hist.add(if lifted > 0 { "unban_nodes_check:lifted expired bans" } else { "unban_nodes_check:nothing to lift" });
+                h = (h ^ (16 + lifted as u64)).wrapping_mul(1099511628211);
+            }
             FEv::Prune => {
                 h = (h ^ 6).wrapping_mul(1099511628211);
             }
@@ -791,7 +948,8 @@ fn run_fil(id: u64, g: &FilCase, api: &Discv5) -> CaseResult {
         _ => "None".to_string(),
     };
     let coq = format!(
-        "CFil ({}, {}, {}, {}, {}, {},\n [{}])",
+        "{} ({}, {}, {}, {}, {}, {},\n [{}])",
+        if inb { "CInb" } else { "CFil" },
         id,
         coq_bool(g.enabled),
         rate,
@@ -815,7 +973,11 @@ pub fn case_rng(seed: u64, idx: u64, part: &str) -> Rng {
     Rng::new(
         seed.wrapping_mul(0x9E3779B97F4A7C15)
             .wrapping_add(idx.wrapping_mul(0xD1B54A32D192ED03))
-            .wrapping_add(if part == "lim" { 1801 } else { 1802 }),
+            .wrapping_add(match part {
+                "lim" => 1801,
+                "fil" => 1802,
+                _ => 1803,
+            }),
     )
 }
 
@@ -858,7 +1020,7 @@ pub fn main(args: &[String]) {
     // the application-level ban/permit calls on the global list (filter part, run serially).
     let rt = tokio::runtime::Builder::new_current_thread().enable_all().build().unwrap();
     let _guard = rt.enter();
-    let api = if part == "fil" { Some(api_instance()) } else { None };
+    let api = if part != "lim" { Some(api_instance()) } else { None };
     for idx in range {
         let mut rng = case_rng(o.seed, idx, &part);
         let (r, sample, replay_ops): (CaseResult, J, Vec<J>) = if part == "lim" {
@@ -878,8 +1040,8 @@ pub fn main(args: &[String]) {
                 ops,
             )
         } else {
-            let g = gen_fil(&mut rng, o.thorough);
-            let r = run_fil(idx, &g, api.as_ref().unwrap());
+            let g = gen_fil(&mut rng, o.thorough, part == "inb");
+            let r = run_fil(idx, &g, api.as_ref().unwrap(), part == "inb", &rt);
             let ops: Vec<J> = g.events.iter().map(|e| J::s(coq_fev(e))).collect();
             (
                 r,
@@ -935,8 +1097,10 @@ pub fn main(args: &[String]) {
     sum.case_files = w.files.clone();
     sum.rule = if part == "lim" {
         "event sequences over a real Limiter<u64> with explicit time: bursts 1-12, periods divisible / not divisible by the burst (large, round and small), arrival gaps around 0, t, tau and multiples, 3 keys, interleaved prunes, occasionally batches of several tokens; plus edge cases (invalid quotas, t = 0, times near 2^64, clock going back, huge batches); a case is non-trivial if the limiter both accepted and refused, distinct if its verdict/prune trace is new in this run".into()
+    } else if part == "inb" {
+        "histories over a real RecvHandler (handle_inbound: exemption lookup, initial pass, Packet::decode, final pass) + the global PERMIT_BAN_LIST in real time (serial): datagrams built with Packet::encode (message from one of 6 node ids / WHOAREYOU / undecodable) from 4 IPs, 1 in 8 from an exempt (expected-response) source, same quota regimes and list operations as the filter part, unban_nodes_check through a starting real Handler; non-trivial if some datagram was delivered, some dropped, and a permit/ban/exemption decided a call; distinct by fate trace".into()
     } else {
-        "histories over a real Filter + the global PERMIT_BAN_LIST in real time (serial): total/node/ip quotas each absent, not refilling within the case (period >= 60 s, burst 1-14) or refilled before every call (period 200 us, 2 ms between calls), 4 IPs x 6 node ids, ban duration 1 h / 30 s / permanent, nodes-per-IP and bans-per-IP rules on/off, interleaved prune_limiter and Discv5::ban_*/permit_* calls; non-trivial if some datagram passed, some was dropped by a quota or a ban, and a permit or ban entry decided a call; distinct by decision trace".into()
+        "histories over a real Filter + the global PERMIT_BAN_LIST in real time (serial): total/node/ip quotas each absent, not refilling within the case (period >= 60 s, burst 1-14) or refilled before every call (period 200 us, 2 ms between calls), 4 IPs x 6 node ids, ban duration 1 h / 30 s / permanent, nodes-per-IP and bans-per-IP rules on/off, interleaved prune_limiter, Discv5::ban_*/permit_* calls (bans of 1 h / permanent / 0.5 ms) and unban_nodes_check through a starting real Handler; non-trivial if some datagram passed, some was dropped by a quota or a ban, and a permit or ban entry decided a call; distinct by decision trace".into()
     };
     sum.write(&o.out);
     println!(
